@@ -190,8 +190,8 @@ func (fc *FnCtx) evalCall(st *State, c *ast.CallExpr, stmt bool) Val {
 		fc.onCallRequires(st, oc, c, args, name)
 		if len(oc.Effects) > 0 {
 			// `also` with ghost effects: the callee's own contract (or the unknown-call rule) decides what happens to
-			// the real state, the declared effects update the caller's ghosts (RHS evaluated in the pre-state;
-			// results of the call are not visible to them)
+			// the real state, the declared effects update the caller's ghosts (RHS evaluated in the pre-state, with
+			// the results of the call bound)
 			bind := map[string]Val{}
 			for i, p := range oc.Params {
 				if p != "_" && i < len(args) {
@@ -199,6 +199,22 @@ func (fc *FnCtx) evalCall(st *State, c *ast.CallExpr, stmt bool) Val {
 				}
 			}
 			pre := st.clone()
+			var r Val
+			if ct := fc.lookupContract(name, pkgPath); ct != nil && fn != nil {
+				r = fc.applyContract(st, ct, fn, c.Pos(), args)
+			} else {
+				r = fc.unknownCall(st, c, name, pkgPath, fn, args, resT)
+			}
+			// the results of the call are visible to the effects under the names of the `-> a, b` list
+			if tup, ok := r.(VTuple); ok {
+				for i, rn := range oc.Results {
+					if i < len(tup) && rn != "_" {
+						bind[rn] = tup[i]
+					}
+				}
+			} else if len(oc.Results) == 1 && oc.Results[0] != "_" && r != nil {
+				bind[oc.Results[0]] = r
+			}
 			type upd struct {
 				name string
 				v    Val
@@ -213,12 +229,6 @@ func (fc *FnCtx) evalCall(st *State, c *ast.CallExpr, stmt bool) Val {
 					continue
 				}
 				upds = append(upds, upd{ef.Target, fc.specVal(st, ef.Expr, &specEnv{fc: fc, st: pre, old: fc.entry, bind: bind, at: c.Pos(), scopeNode: c})})
-			}
-			var r Val
-			if ct := fc.lookupContract(name, pkgPath); ct != nil && fn != nil {
-				r = fc.applyContract(st, ct, fn, c.Pos(), args)
-			} else {
-				r = fc.unknownCall(st, c, name, pkgPath, fn, args, resT)
 			}
 			for _, u := range upds {
 				st.ghost[u.name] = fc.nameVal(u.v, "g_"+u.name)
@@ -423,6 +433,9 @@ func (fc *FnCtx) evalBuiltin(st *State, c *ast.CallExpr, name string) Val {
 			for _, a := range c.Args[1:] {
 				fc.eval(st, a)
 			}
+			if fc.lenient && isIntMap(t) {
+				return fc.mapMake(st, t)
+			}
 			id := fc.fresh("make", SInt)
 			fc.axiom(lt(mkInt(0), id))
 			return VOpaque{id, t}
@@ -439,6 +452,13 @@ func (fc *FnCtx) evalBuiltin(st *State, c *ast.CallExpr, name string) Val {
 		fc.assume(st, tFalse)
 		return VInt{mkInt(0)}
 	case "delete", "close", "clear", "print", "println":
+		if name == "delete" && fc.lenient && len(c.Args) == 2 && isIntMap(fc.typeOf(c.Args[0])) {
+			if mv, ok := fc.eval(st, c.Args[0]).(VOpaque); ok {
+				fc.monitorWrite(st, c.Args[0])
+				fc.mapDelete(st, mv, asInt(fc.eval(st, c.Args[1])))
+				return VTuple{}
+			}
+		}
 		for _, a := range c.Args {
 			fc.eval(st, a)
 		}
@@ -792,6 +812,9 @@ func (fc *FnCtx) applyModifies(st *State, ct *FuncContract, bind map[string]Val,
 	}
 	if !explicit {
 		// default: pointer params (incl. receiver) may be changed entirely; slices are read-only
+		if fc.mapsUsed {
+			st.cheap = fc.fresh("C", SHeap) // ... including the entries of integer maps they can reach
+		}
 		for i, n := range pn {
 			if _, isPtr := pt[i].Underlying().(*types.Pointer); !isPtr {
 				continue
@@ -840,7 +863,7 @@ func (fc *FnCtx) collectRegions(v Val, out *[]T) {
 func (fc *FnCtx) havocHeap(st *State, rgns []T) {
 	old := st.heap
 	st.heap = fc.fresh("H", SHeap)
-	if rgns == nil && len(cellTypes) > 0 {
+	if rgns == nil && (len(cellTypes) > 0 || fc.mapsUsed) {
 		st.cheap = fc.fresh("C", SHeap) // "anything may have been written" includes the cells
 	}
 	if rgns != nil {
